@@ -77,16 +77,16 @@ type scopeRec struct {
 
 // Env is the state of one execution of a scenario.
 type Env struct {
-	W          *kit.World
-	Coll       godi.Collection
-	Prov       godi.Provider
-	BuildErr   error
-	AddErrs    []error
-	Scopes     map[string]*scopeRec
-	Results    []*Res
-	curScope   map[int]string // thread -> scope name the running op resolves in ("" provider/root, "#build")
-	CallScope  map[*kit.Call]string
-	BuildPanic any
+	W            *kit.World
+	Coll         godi.Collection
+	Prov         godi.Provider
+	BuildErr     error
+	AddErrs      []error
+	Scopes       map[string]*scopeRec
+	Results      []*Res
+	curScope     map[int]string // thread -> scope name the running op resolves in ("" provider/root, "#build")
+	CallScope    map[*kit.Call]string
+	BuildPanic   any
 	SharedCtx    context.Context
 	SharedCancel context.CancelFunc
 }
